@@ -439,7 +439,7 @@ fn c15b_query() {
     while i < MAX_BODY {
         #[cfg(test)]
         if nd::searching() {
-            b[i] = b"a%+&=2/5"[b[i] as usize % 8];
+            b[i] = b"a%+&=?/5"[b[i] as usize % 8];
         }
         nd::assume(b[i] < 128);
         i += 1;
